@@ -1,5 +1,191 @@
-"""Contracts for src/aead.rs."""
+"""Contracts for src/aead.rs (RFC 9180 §5.2 ContextS.Seal / ContextR.Open / ComputeNonce /
+IncrementSeq, §5.3 Export)."""
+
+G3 = 'impl<A: Aead, Kdf: KdfTrait, Kem: KemTrait>'
+IMPL = 'A::AeadImpl'
+NH = 'nh_of::<Kdf::HashImpl>()'
+
+VIEWS = '''
+verus!{
+broadcast use ga_len;
+impl<A: Aead> AeadTag<A> {
+    /// ghost: the tag bytes
+    pub closed spec fn v_tag(&self) -> Bytes { self.0.gv() }
+    pub broadcast proof fn v_tag_len(&self)
+        ensures #[trigger] self.v_tag().len() == nt_of::<A::AeadImpl>()
+    { broadcast use ga_len; }
+    pub broadcast proof fn v_tag_is_ser(&self)
+        ensures #[trigger] self.v_tag() == self.ser()
+    { }
+}
+impl<A: Aead, Kdf: KdfTrait, Kem: KemTrait> AeadCtx<A, Kdf, Kem> {
+    /// ghost: abstract state of the context (RFC 9180 §5.2 Context<ROLE>)
+    pub closed spec fn view(&self) -> CtxView {
+        CtxView {
+            overflowed: self.overflowed,
+            seq: self.seq.0 as nat,
+            key: aead_key_of::<A::AeadImpl>(&self.encryptor),
+            base_nonce: self.base_nonce.0.gv(),
+            exporter_secret: self.exporter_secret.0.gv(),
+            suite_id: self.suite_id@,
+        }
+    }
+}
+impl<A: Aead, Kdf: KdfTrait, Kem: KemTrait> AeadCtxR<A, Kdf, Kem> {
+    pub closed spec fn view(&self) -> CtxView { self.0.view() }
+    pub broadcast proof fn from_spec_view(c: AeadCtx<A, Kdf, Kem>)
+        ensures (#[trigger] <Self as vstd::std_specs::convert::FromSpec<AeadCtx<A, Kdf, Kem>>>::from_spec(c)).view() == c.view() {}
+}
+impl<A: Aead, Kdf: KdfTrait, Kem: KemTrait> AeadCtxS<A, Kdf, Kem> {
+    pub closed spec fn view(&self) -> CtxView { self.0.view() }
+    pub broadcast proof fn from_spec_view(c: AeadCtx<A, Kdf, Kem>)
+        ensures (#[trigger] <Self as vstd::std_specs::convert::FromSpec<AeadCtx<A, Kdf, Kem>>>::from_spec(c)).view() == c.view() {}
+}
+// ghost: the `From` wrappers are total functions (needed so that `.into()` is specified)
+impl<A: Aead, Kdf: KdfTrait, Kem: KemTrait> vstd::std_specs::convert::FromSpecImpl<AeadCtx<A, Kdf, Kem>> for AeadCtxR<A, Kdf, Kem> {
+    open spec fn obeys_from_spec() -> bool { true }
+    closed spec fn from_spec(v: AeadCtx<A, Kdf, Kem>) -> Self { AeadCtxR(v) }
+}
+impl<A: Aead, Kdf: KdfTrait, Kem: KemTrait> vstd::std_specs::convert::FromSpecImpl<AeadCtx<A, Kdf, Kem>> for AeadCtxS<A, Kdf, Kem> {
+    open spec fn obeys_from_spec() -> bool { true }
+    closed spec fn from_spec(v: AeadCtx<A, Kdf, Kem>) -> Self { AeadCtxS(v) }
+}
+// ghost: value of the derived `Default` for the sequence counter (discharged by Kani `seq_default_is_zero`)
+impl Seq { pub closed spec fn sv(&self) -> u64 { self.0 } }
+pub assume_specification [<Seq as Default>::default] () -> (r: Seq)
+    ensures r.sv() == 0;
+}
+'''
+
+def seal_open_common(v):
+    return f'''compute_nonce_spec({v}.base_nonce, {v}.seq)'''
 
 def apply(F):
     F.use()
     F.wrap([], r'pub trait Aead\b')
+    F.wrap([], r'pub\(crate\) struct AeadNonce<A: Aead>')
+    F.wrap([], r'impl<A: Aead> Default for AeadNonce<A>')
+    F.wrap([], r'pub\(crate\) struct AeadKey<A: Aead>')
+    F.wrap([], r'impl<A: Aead> Default for AeadKey<A>')
+    F.wrap([], r'struct Seq\(u64\)')
+
+    # §5.2 IncrementSeq / ComputeNonce: assumed here, discharged by Kani over the full input domain
+    F.contract([], r'fn increment_seq\b', ret='r', attrs=['#[verifier::external_body]'], discharged_by='kani:increment_seq_full', clauses='''
+    ensures /*@C04 C05*/ r == (if seq.0 == 0xffff_ffff_ffff_ffffu64 { None::<Seq> } else { Some(Seq((seq.0 + 1) as u64)) }),
+''')
+    F.contract([], r'fn mix_nonce<A: Aead>', ret='r', attrs=['#[verifier::external_body]'], discharged_by='kani:mix_nonce_full', clauses='''
+    requires /*@C13*/ 8 <= nn_of::<A::AeadImpl>(),
+    ensures /*@C04 C02*/ r.0.gv() == compute_nonce_spec(base_nonce.0.gv(), seq.0 as nat),
+''')
+    F.wrap([], r'fn increment_seq\b', upto_rx=r'fn mix_nonce<A: Aead>')
+
+    F.wrap([], r'pub struct AeadTag<A: Aead>')
+    F.wrap([], r'impl<A: Aead> Default for AeadTag<A>')
+    S = [r'impl<A: Aead> Serializable for AeadTag<A>']
+    F.insert_in([], S[0], '    closed spec fn ser(&self) -> Bytes { self.0.gv() }')
+    F.contract(S, r'fn write_exact\b', attrs=['#[verifier::external_body]'], discharged_by='kani:write_exact_tag')
+    F.wrap([], S[0])
+    D = [r'impl<A: Aead> Deserializable for AeadTag<A>']
+    F.contract(D, r'fn from_bytes\b', ret='r', clauses='''
+        ensures
+            /*@C12 C13*/ r is Ok <==> encoded@.len() == nt_of::<A::AeadImpl>(),
+            /*@C12*/ r is Err ==> r == Err::<Self, HpkeError>(HpkeError::IncorrectInputLength(nt_of::<A::AeadImpl>() as usize, encoded@.len() as usize)),
+            /*@C12 C06*/ r is Ok ==> r.unwrap().ser() == encoded@,
+''')
+    F.wrap([], D[0])
+
+    F.wrap([], r'pub\(crate\) struct AeadCtx<A: Aead, Kdf: KdfTrait, Kem: KemTrait>')
+    C = [G3 + r' AeadCtx<A, Kdf, Kem>']
+    F.contract(C, r'pub\(crate\) fn new\b', ret='r', clauses='''
+        ensures /*@C01 C02 C04 C07 C11 C16*/ r.view() == (CtxView {
+            overflowed: false, seq: 0, key: key.0.gv(), base_nonce: base_nonce.0.gv(),
+            exporter_secret: exporter_secret.0.gv(),
+            suite_id: full_suite_id_spec(Kem::KEM_ID, Kdf::KDF_ID, A::AEAD_ID) }),
+''')
+    EXPORT = f'''
+        requires kdf_ok::<Kdf>(),
+        ensures
+            final({{o}})@.len() == old({{o}})@.len(),
+            /*@C11 C13*/ r is Ok <==> old({{o}})@.len() <= 255 * {NH},
+            /*@C11*/ r is Err ==> r == Err::<(), HpkeError>(HpkeError::KdfOutputTooLong),
+            /*@C11 C02*/ r is Ok ==> final({{o}})@ == export_spec({NH}, self.view().exporter_secret, self.view().suite_id, {{c}}@, old({{o}})@.len()),
+'''
+    F.contract(C, r'pub fn export\b', ret='r', clauses=EXPORT.format(o='out_buf', c='exporter_ctx'))
+    F.wrap([], C[0])
+
+    # ---------------- receiver
+    F.wrap([], r'pub struct AeadCtxR<A: Aead, Kdf: KdfTrait, Kem: KemTrait>')
+    FR = [G3 + r' From<AeadCtx<A, Kdf, Kem>> for AeadCtxR<A, Kdf, Kem>']
+    F.contract(FR, r'fn from\b', ret='r', clauses='        ensures /*@C01 C02*/ r.view() == ctx.view(),')
+    F.wrap([], FR[0])
+    R = [G3 + r' AeadCtxR<A, Kdf, Kem>']
+    F.contract(R, r'pub fn open_in_place_detached\b', ret='r', clauses=f'''
+        requires aead_ok::<A>(),
+        ensures
+            final(ciphertext)@.len() == old(ciphertext)@.len(),
+            /*@C05 C04*/ old(self).view().overflowed ==>
+                r == Err::<(), HpkeError>(HpkeError::MessageLimitReached)
+                && final(ciphertext)@ == old(ciphertext)@ && final(self).view() == old(self).view(),
+            /*@C05 C06 C01 C02*/ !old(self).view().overflowed ==> ({{
+                let v = old(self).view();
+                let o = aead_open_spec::<{IMPL}>(v.key, compute_nonce_spec(v.base_nonce, v.seq), aad@, old(ciphertext)@, tag.v_tag());
+                &&& o is None ==> r == Err::<(), HpkeError>(HpkeError::OpenError) && final(self).view() == v
+                &&& o is Some ==> r is Ok && final(ciphertext)@ == o.unwrap() && final(self).view() == ctx_advance(v)
+            }}),
+''')
+    F.contract(R, r'pub fn open\b', ret='r', clauses=f'''
+        requires aead_ok::<A>(),
+        ensures
+            /*@C05*/ old(self).view().overflowed ==>
+                r == Err::<crate::Vec<u8>, HpkeError>(HpkeError::MessageLimitReached) && final(self).view() == old(self).view(),
+            /*@C05 C06 C13 C14*/ !old(self).view().overflowed && ciphertext@.len() < nt_of::<{IMPL}>() ==>
+                r == Err::<crate::Vec<u8>, HpkeError>(HpkeError::OpenError) && final(self).view() == old(self).view(),
+            /*@C05 C06 C14 C01 C02*/ !old(self).view().overflowed && ciphertext@.len() >= nt_of::<{IMPL}>() ==> ({{
+                let v = old(self).view();
+                let n = ciphertext@.len() - nt_of::<{IMPL}>();
+                let o = aead_open_spec::<{IMPL}>(v.key, compute_nonce_spec(v.base_nonce, v.seq), aad@,
+                                                 ciphertext@.subrange(0, n), ciphertext@.subrange(n, ciphertext@.len() as int));
+                &&& o is None ==> r == Err::<crate::Vec<u8>, HpkeError>(HpkeError::OpenError) && final(self).view() == v
+                &&& o is Some ==> r is Ok && r.unwrap()@ == o.unwrap() && final(self).view() == ctx_advance(v)
+            }}),
+''')
+    F.contract(R, r'pub fn export\b', ret='r', clauses=EXPORT.format(o='out_buf', c='info'))
+    F.wrap([], R[0])
+
+    # ---------------- sender
+    F.wrap([], r'pub struct AeadCtxS<A: Aead, Kdf: KdfTrait, Kem: KemTrait>')
+    FS = [G3 + r' From<AeadCtx<A, Kdf, Kem>> for AeadCtxS<A, Kdf, Kem>']
+    F.contract(FS, r'fn from\b', ret='r', clauses='        ensures /*@C01 C02*/ r.view() == ctx.view(),')
+    F.wrap([], FS[0])
+    S = [G3 + r' AeadCtxS<A, Kdf, Kem>']
+    F.contract(S, r'pub fn seal_in_place_detached\b', ret='r', clauses=f'''
+        requires aead_ok::<A>(),
+        ensures
+            final(plaintext)@.len() == old(plaintext)@.len(),
+            /*@C04*/ old(self).view().overflowed ==>
+                r == Err::<AeadTag<A>, HpkeError>(HpkeError::MessageLimitReached)
+                && final(plaintext)@ == old(plaintext)@ && final(self).view() == old(self).view(),
+            /*@C04 C01 C02 C13*/ !old(self).view().overflowed ==> ({{
+                let v = old(self).view();
+                let s = aead_seal_spec::<{IMPL}>(v.key, compute_nonce_spec(v.base_nonce, v.seq), aad@, old(plaintext)@);
+                &&& s is None ==> r == Err::<AeadTag<A>, HpkeError>(HpkeError::SealError) && final(self).view() == v
+                &&& s is Some ==> r is Ok && final(plaintext)@ == s.unwrap().0 && r.unwrap().v_tag() == s.unwrap().1
+                                  && final(self).view() == ctx_advance(v)
+            }}),
+''')
+    # allocating seal: `buf[..n]` on a Vec is outside Verus' model -> contract assumed, bounded Kani stand-in
+    F.contract(S, r'pub fn seal\b', ret='r', attrs=['#[verifier::external_body]'], discharged_by='kani-bounded:seal_alloc_bounded', clauses=f'''
+        requires aead_ok::<A>(),
+        ensures
+            /*@C04*/ old(self).view().overflowed ==>
+                r == Err::<crate::Vec<u8>, HpkeError>(HpkeError::MessageLimitReached) && final(self).view() == old(self).view(),
+            /*@C14 C01 C02*/ !old(self).view().overflowed ==> ({{
+                let v = old(self).view();
+                let s = aead_seal_spec::<{IMPL}>(v.key, compute_nonce_spec(v.base_nonce, v.seq), aad@, plaintext@);
+                &&& s is None ==> r == Err::<crate::Vec<u8>, HpkeError>(HpkeError::SealError) && final(self).view() == v
+                &&& s is Some ==> r is Ok && r.unwrap()@ == s.unwrap().0 + s.unwrap().1 && final(self).view() == ctx_advance(v)
+            }}),
+''')
+    F.contract(S, r'pub fn export\b', ret='r', clauses=EXPORT.format(o='out_buf', c='info'))
+    F.wrap([], S[0])
+    F.append(VIEWS)
